@@ -294,6 +294,89 @@ def compute(t, reverse=False, want_key=True):
     return (interleave(rec.seen[0], rec.seen[1]), name)
 
 
+
+# ---------------------------------------------------------------------------
+# every bit of both CRC32 values reaches the name
+
+def crc_bit_family():
+    """Pairs of inputs whose hashed keys have CRC32 pairs that differ in EXACTLY one bit (64 pairs) or in the same
+    bit of both CRCs (32 pairs): "different inputs share a name only through a CRC32 collision" means such a pair
+    must get two names.  The pairs are constructed, not searched: CRC32 is affine over GF(2) for messages of one
+    length, so toggling 'a' <-> 'c' at chosen source positions changes the two CRCs by a XOR-sum of per-position
+    vectors; Gaussian elimination picks the positions for each target bit.  Everything is verified on the key the
+    real Verifier hashes.  Returns (number of pairs judged, list of (why, detail))."""
+    N = 160
+    base = "a" * N
+    fam = "A"
+    t0 = (fam, (), base, ("d", ()))
+    r0 = compute(t0)
+    if not isinstance(r0[0], bytes):
+        raise InfraError("crc-bit family: key not observable: %r" % (r0,))
+    key0, name0 = r0
+    at = key0.find(b"\x00" + base.encode() + b"\x00")
+    if at < 0:
+        raise InfraError("crc-bit family: source text not found in the hashed key")
+    at += 1
+
+    def crcs(key):
+        return (zlib.crc32(key[0::2]) & 0xffffffff, zlib.crc32(key[1::2]) & 0xffffffff)
+
+    def toggled(key, positions):
+        b = bytearray(key)
+        for j in positions:
+            b[at + j] ^= 0x02            # 'a' (0x61) <-> 'c' (0x63)
+        return bytes(b)
+    c0 = crcs(key0)
+    # unit vectors: effect of toggling source position j on the 64-bit (crc_even << 32 | crc_odd)
+    unit = []
+    for j in range(N):
+        c = crcs(toggled(key0, [j]))
+        unit.append(((c[0] ^ c0[0]) << 32) | (c[1] ^ c0[1]))
+    # Gaussian elimination over GF(2): basis[bit] = (vector, set of positions)
+    basis = {}
+    for j, v in enumerate(unit):
+        comb = {j}
+        while v:
+            hb = v.bit_length() - 1
+            if hb not in basis:
+                basis[hb] = (v, comb)
+                break
+            bv, bc = basis[hb]
+            v ^= bv
+            comb = comb ^ bc
+    if len(basis) < 64:
+        raise InfraError("crc-bit family: toggles span only %d of 64 bits" % len(basis))
+
+    def solve(target):
+        comb = set()
+        v = target
+        while v:
+            hb = v.bit_length() - 1
+            bv, bc = basis[hb]
+            v ^= bv
+            comb ^= bc
+        return sorted(comb)
+    targets = [("crc_even", 1 << (32 + b), b) for b in range(32)] + [("crc_odd", 1 << b, b) for b in range(32)]
+    targets += [("both", (1 << (32 + b)) | (1 << b), b) for b in range(32)]
+    bad = []
+    for which, tv, b in targets:
+        pos = solve(tv)
+        src = "".join("c" if j in set(pos) else "a" for j in range(N))
+        r1 = compute((fam, (), src, ("d", ())))
+        if not isinstance(r1[0], bytes):
+            raise InfraError("crc-bit family: key not observable for the toggled source")
+        key1, name1 = r1
+        c1 = crcs(key1)
+        diff = ((c1[0] ^ c0[0]) << 32) | (c1[1] ^ c0[1])
+        if key1 != toggled(key0, pos) or diff != tv:
+            raise InfraError("crc-bit family: constructed key does not differ in the intended CRC bit")
+        if name1 == name0:
+            bad.append(("crc-bit-does-not-reach-the-name",
+                        {"which": which, "bit": b, "name": name0, "crc32_pair_a": list(c0), "crc32_pair_b": list(c1),
+                         "source_a": base, "source_b": src}))
+    return len(targets), bad
+
+
 def work(block):
     import collections
     start, stop = block
@@ -490,6 +573,10 @@ def run(ctx):
                 ks = sorted(keys)[:2]
                 ctx.violation({"kind": "name-shared-without-crc32-collision"},
                               {"kind": "name-shared", "name": name, "inputs": [sp[bykey[k][0]] for k in ks]})
+    nbits, badbits = crc_bit_family()
+    ctx.count("crc_bit_pairs", nbits)
+    for why, det in badbits:
+        ctx.violation({"kind": why, "which": det["which"], "high_nibble": det["bit"] >= 28}, dict(det, kind="crc-bit"))
     ctx.count("distinct_keys", len(bykey))
     ctx.count("distinct_names", len(byname))
     # ---- flatten alone
@@ -579,6 +666,12 @@ def replay(detail):
         fa, fb = fp.flatten(a), fp.flatten(b)
         print("flatten(%r) = %r\nflatten(%r) = %r" % (a, fa, b, fb))
         return 1 if fa == fb else 0
+    if kind == "crc-bit":
+        na = compute(("A", (), detail["source_a"], ("d", ())), want_key=False)[1]
+        nb = compute(("A", (), detail["source_b"], ("d", ())), want_key=False)[1]
+        print("source a: %s\nsource b: %s\nCRC32 pairs %s vs %s\nnames: %s / %s" % (
+            detail["source_a"], detail["source_b"], detail["crc32_pair_a"], detail["crc32_pair_b"], na, nb))
+        return 1 if na == nb else 0
     if kind == "determinism":
         t = _tuplify(detail["triple"])
         here = compute(t, want_key=False)[1]
